@@ -267,6 +267,16 @@ pub fn panic_msg(e: Box<dyn std::any::Any + Send>) -> String {
 }
 
 /// Runs one scenario; returns number of events written.
+/// The configuration as the specification sees it (Begin.norm, Reset.norm).
+fn norm_json(cfg: &Cfg) -> Value {
+    json!({"naming": cfg.naming, "rot": cfg.rot, "size": cfg.size, "age": cfg.age, "k": cfg.k, "m": cfg.m,
+        "clean": cfg.clean(), "mode": cfg.mode, "cap": cfg.cap as i64, "le": cfg.le().len(),
+        "direct": cfg.cur.is_empty() && cfg.rot, "bg": cfg.bg, "fmt": cfg.fmt, "link": cfg.link,
+        "append": cfg.append, "via": cfg.via, "suffix": cfg.suffix.clone().unwrap_or_default(),
+        "has_suffix": cfg.suffix.is_some(), "basename": cfg.basename, "discr": cfg.discr.clone().unwrap_or_default(),
+        "has_discr": cfg.discr.is_some(), "use_ts": cfg.use_ts, "cur": cfg.cur, "subdir": cfg.subdir})
+}
+
 pub fn run_scenario(sc: &Value, ex: &mut Exec) -> usize {
     let scid = sc["sc"].clone();
     let mut cfg = Cfg::from_json(&sc["cfg"]);
@@ -315,12 +325,7 @@ pub fn run_scenario(sc: &Value, ex: &mut Exec) -> usize {
         }
     };
     let mut begin = json!({"ev":"Begin","cfg": sc["cfg"].clone(), "origin": sc.get("origin").cloned().unwrap_or(json!("")),
-        "norm": {"naming": cfg.naming, "rot": cfg.rot, "size": cfg.size, "age": cfg.age, "k": cfg.k, "m": cfg.m,
-                 "clean": cfg.clean(), "mode": cfg.mode, "cap": cfg.cap as i64, "le": cfg.le().len(),
-                 "direct": cfg.cur.is_empty() && cfg.rot, "bg": cfg.bg, "fmt": cfg.fmt, "link": cfg.link,
-                 "append": cfg.append, "via": cfg.via, "suffix": cfg.suffix.clone().unwrap_or_default(),
-                 "has_suffix": cfg.suffix.is_some(), "basename": cfg.basename, "discr": cfg.discr.clone().unwrap_or_default(),
-                 "has_discr": cfg.discr.is_some(), "use_ts": cfg.use_ts, "cur": cfg.cur},
+        "norm": norm_json(&cfg),
         "t": hh.get_clock()});
     if let Some(x) = sc.get("tag") {
         begin["tag"] = x.clone();
@@ -625,8 +630,7 @@ pub fn run_scenario(sc: &Value, ex: &mut Exec) -> usize {
                     Ok(Ok(())) => {
                         old_fams.push((dir.clone(), cfg.clone()));
                         cfg = ncfg;
-                        ev["norm"] = json!({"naming": cfg.naming, "rot": cfg.rot, "size": cfg.size, "age": cfg.age,
-                            "direct": cfg.cur.is_empty() && cfg.rot, "subdir": cfg.subdir, "basename": cfg.basename});
+                        ev["norm"] = norm_json(&cfg);
                         "ok".into()
                     }
                     Ok(Err(e)) if e == "noop" => "noop".into(),
